@@ -3302,3 +3302,185 @@ twin('C12-twin-override-by-get', 'C12',
        "                overrides = n_per_utility_override\n"
        "                if overrides is not None and chosen_parent in overrides:\n"
        "                    this_n_per = overrides[chosen_parent]\n")])
+
+# ======================================================================
+# rules added after the sixth seeding round
+# ======================================================================
+_MT = P+'type_assignment/matching.py'
+_CBG = P+'cell_by_gene/cell_by_gene.py'
+_TXU = P+'taxonomy/utils.py'
+_AU = P+'utils/anndata_utils.py'
+_CU = P+'utils/config_utils.py'
+mutant('C09-chunk-sum-in-input-type', 'C09',
+       'per-gene sums of a chunk cast back to the type of the data',
+       [(_ST, "    result['sum'] = data.sum(axis=0)\n",
+         "    result['sum'] = data.sum(axis=0).astype(data.dtype)\n")],
+       'R-DTYPE/narrowing-cast', 'summary_stats_for_chunk')
+twin('C09-twin-allocate-in-input-type', 'C09',
+     'a work array allocated with the type of the data (no cast of a result)',
+     [(_ST, "    result['sum'] = data.sum(axis=0)\n",
+       "    scratch = np.zeros(data.shape[1], dtype=data.dtype)\n"
+       "    del scratch\n"
+       "    result['sum'] = data.sum(axis=0)\n")])
+mutant('C06-scale-by-chunk-maximum', 'C06',
+       'query chunk divided by its own largest value before correlation',
+       [(_MT, "    query_data = full_query_data.downsample_genes(\n"
+         "        selected_genes=query_markers)\n",
+         "    query_data = full_query_data.downsample_genes(\n"
+         "        selected_genes=query_markers)\n"
+         "    chunk_scale = max(1.0, query_data.data.max())\n")],
+       'R-AXIS/no-reduction-over-cells', 'assemble_query_data')
+twin('C06-twin-per-cell-total', 'C06',
+     'a per-cell total computed along the gene axis',
+     [(_MT, "    query_data = full_query_data.downsample_genes(\n"
+       "        selected_genes=query_markers)\n",
+       "    query_data = full_query_data.downsample_genes(\n"
+       "        selected_genes=query_markers)\n"
+       "    per_cell_total = query_data.data.sum(axis=1)\n"
+       "    del per_cell_total\n")])
+mutant('C10-obs-sorted-before-numbering', 'C10',
+       'obs rows sorted by the hierarchy columns before they are numbered',
+       [(_TXU, "    obs = read_df_from_h5ad(h5ad_path, 'obs')\n"
+         "    taxonomy_tree = get_taxonomy_tree(\n",
+         "    obs = read_df_from_h5ad(h5ad_path, 'obs')\n"
+         "    obs = obs.sort_values(by=list(column_hierarchy))\n"
+         "    taxonomy_tree = get_taxonomy_tree(\n")],
+       'R-PROV/rows-are-file-positions', 'get_taxonomy_tree_from_h5ad')
+twin('C10-twin-obs-columns-selected', 'C10',
+     'only the hierarchy columns of obs are kept (no row touched)',
+     [(_TXU, "    obs = read_df_from_h5ad(h5ad_path, 'obs')\n"
+       "    taxonomy_tree = get_taxonomy_tree(\n",
+       "    obs = read_df_from_h5ad(h5ad_path, 'obs')\n"
+       "    obs = obs[list(column_hierarchy)].copy()\n"
+       "    taxonomy_tree = get_taxonomy_tree(\n")])
+mutant('C16-F8-group-item-assignment-returns', 'C16',
+       'unchunked sparse layer filled by item assignment on the group (F8)',
+       [(_AU, "                    dst_grp[el][:] = src_dataset[()]\n",
+         "                    dst_grp[el] = src_dataset[()]\n")],
+       'R-TYPESTATE/h5-name-once', '_copy_layer_to_x_sparse')
+twin('C16-twin-ellipsis-fill', 'C16',
+     'unchunked sparse layer filled through an ellipsis index',
+     [(_AU, "                    dst_grp[el][:] = src_dataset[()]\n",
+       "                    dst_grp[el][...] = src_dataset[()]\n")])
+twin('C16-twin-max-of-abs-function-form', 'C16',
+     'largest absolute deviation written with np.max(np.abs(...))',
+     [(P+'validation/utils.py',
+       "                rounded_chunk = np.round(chunk)\n"
+       "                this_delta = np.abs(rounded_chunk-chunk).max()\n"
+       "                if this_delta > eps:\n",
+       "                rounded_chunk = np.round(chunk)\n"
+       "                this_delta = np.max(np.abs(rounded_chunk-chunk))\n"
+       "                if this_delta > eps:\n")])
+mutant('C19-fallback-tested-first', 'C19',
+       'the location beside the parent file is tried before the recorded one',
+       [(_CU, "        if child.is_file():\n"
+         "            new_lookup[child] = parent\n"
+         "            continue\n\n"
+         "        found_it = False\n"
+         "        if do_search:\n"
+         "            alt_path = parent.parent / child.name\n"
+         "            if alt_path.is_file():\n"
+         "                new_lookup[alt_path] = parent\n"
+         "                found_it = True\n",
+         "        found_it = False\n"
+         "        if do_search:\n"
+         "            alt_path = parent.parent / child.name\n"
+         "            if alt_path.is_file():\n"
+         "                new_lookup[alt_path] = parent\n"
+         "                found_it = True\n"
+         "        if not found_it and child.is_file():\n"
+         "            new_lookup[child] = parent\n"
+         "            continue\n")],
+       'R-PROV/recorded-path-first', 'patch_child_to_parent')
+twin('C19-twin-candidates-in-order', 'C19',
+     'first-match loop over [recorded, fall-back]',
+     [(_CU, "        if child.is_file():\n"
+       "            new_lookup[child] = parent\n"
+       "            continue\n\n"
+       "        found_it = False\n"
+       "        if do_search:\n"
+       "            alt_path = parent.parent / child.name\n"
+       "            if alt_path.is_file():\n"
+       "                new_lookup[alt_path] = parent\n"
+       "                found_it = True\n",
+       "        candidates = [child]\n"
+       "        if do_search:\n"
+       "            candidates.append(parent.parent / child.name)\n"
+       "        found_it = False\n"
+       "        for candidate in candidates:\n"
+       "            if candidate.is_file():\n"
+       "                new_lookup[candidate] = parent\n"
+       "                found_it = True\n"
+       "                break\n")])
+mutant('C17-parents-of-unreduced-tree', 'C17',
+       'parents listed before the level is dropped, selection on the reduced tree',
+       [(_MC, "    if drop_level is not None:\n"
+         "        if drop_level in taxonomy_tree.hierarchy:\n"
+         "            taxonomy_tree = taxonomy_tree.drop_level(drop_level)\n\n"
+         "    # assemble dict mapping reference marker path to the a\n",
+         "    full_tree = taxonomy_tree\n"
+         "    if drop_level is not None:\n"
+         "        if drop_level in taxonomy_tree.hierarchy:\n"
+         "            taxonomy_tree = taxonomy_tree.drop_level(drop_level)\n\n"
+         "    # assemble dict mapping reference marker path to the a\n"),
+        (_MC, "                taxonomy_tree=taxonomy_tree,\n"
+         "                parent_list=parent_list,\n"
+         "                n_per_utility=n_per_utility,\n"
+         "                n_per_utility_override=n_per_utility_override,\n"
+         "                n_processors=n_processors,\n"
+         "                behemoth_cutoff=behemoth_cutoff,\n"
+         "                genes_at_a_time=genes_at_a_time,\n"
+         "                tmp_dir=tmp_dir)\n\n        if marker_lookup is None:\n",
+         "                taxonomy_tree=full_tree,\n"
+         "                parent_list=parent_list,\n"
+         "                n_per_utility=n_per_utility,\n"
+         "                n_per_utility_override=n_per_utility_override,\n"
+         "                n_processors=n_processors,\n"
+         "                behemoth_cutoff=behemoth_cutoff,\n"
+         "                genes_at_a_time=genes_at_a_time,\n"
+         "                tmp_dir=tmp_dir)\n\n        if marker_lookup is None:\n")],
+       'R-SAMEVAL/tree-and-parents', 'create_raw_marker_gene_lookup')
+mutant('C11-gene-list-skipped-when-short', 'C11',
+       'a gene list of one gene is treated as no restriction',
+       [(_SCO, "    if valid_gene_idx is not None:\n"
+         "        invalid_mask = np.zeros(pij_1.shape, dtype=bool)\n",
+         "    if valid_gene_idx is not None and valid_gene_idx.size > 1:\n"
+         "        invalid_mask = np.zeros(pij_1.shape, dtype=bool)\n")],
+       'R-PROV/gene-list', 'whenever-given')
+mutant('C15-name-cache-without-level', 'C15',
+       'readable names memoised per (label, key) on the tree object',
+       [(_TT, "        if 'name_mapper' not in self._data:\n"
+         "            return label\n"
+         "        name_mapper = self._data['name_mapper']\n"
+         "        if level not in name_mapper:\n"
+         "            return label\n",
+         "        if not hasattr(self, '_names'):\n"
+         "            self._names = dict()\n"
+         "        if (label, name_key) not in self._names:\n"
+         "            self._names[(label, name_key)] = self._data.get(\n"
+         "                'name_mapper', {}).get(level, {}).get(\n"
+         "                    label, {}).get(name_key, label)\n"
+         "        if 'name_mapper' not in self._data:\n"
+         "            return label\n"
+         "        name_mapper = self._data['name_mapper']\n"
+         "        if level not in name_mapper:\n"
+         "            return label\n")],
+       'R-MEMO/key-complete', 'label_to_name')
+twin('C15-twin-name-cache-with-level', 'C15',
+     'readable names memoised per (level, label, key)',
+     [(_TT, "        if 'name_mapper' not in self._data:\n"
+       "            return label\n"
+       "        name_mapper = self._data['name_mapper']\n"
+       "        if level not in name_mapper:\n"
+       "            return label\n",
+       "        if not hasattr(self, '_names'):\n"
+       "            self._names = dict()\n"
+       "        if (level, label, name_key) not in self._names:\n"
+       "            self._names[(level, label, name_key)] = self._data.get(\n"
+       "                'name_mapper', {}).get(level, {}).get(\n"
+       "                    label, {}).get(name_key, label)\n"
+       "        if 'name_mapper' not in self._data:\n"
+       "            return label\n"
+       "        name_mapper = self._data['name_mapper']\n"
+       "        if level not in name_mapper:\n"
+       "            return label\n")])
